@@ -80,3 +80,11 @@ Proof.
   apply RT_obj; [reflexivity|intros; reflexivity|].
   repeat constructor; cbn; auto; try (intros; reflexivity).
 Qed.
+
+From Cty Require Import RawRefl RawEq.
+
+(* the round trip in the property's own terms: the decoded value is RawEquals to the original, at every depth *)
+Theorem C15_structural_roundtrip_raw_equal : forall norm t p, RT norm false t p -> wf_ty t = true ->
+  exists j r, json_marshal (V t p) t = Ok j /\ json_unmarshal norm j t = Ok r /\ raw_equals r (V t p) = Ok true.
+Proof. exact json_roundtrip_raw_equal. Qed.
+Print Assumptions C15_structural_roundtrip_raw_equal.
